@@ -24,9 +24,9 @@ CHECKS_C06 = dict(
          "theorems about the generated functions: Converged iff eps<=tol, tolerance wins over every limit, MaxIter only with k=max_iter, NotFinite only non-finite, "
          "NoProgress only above the limit, Interrupted only after a request, OCP copy identical, and at binary64 (FloatAxioms) a NaN/+inf residual is never Converged; "
          "loop-skeleton theorem (all observation sequences): iterations<=max_iter; no-progress counter spec incl. max_no_progress=0; reported eps = documented formula for all ten criteria over R. "
-         "calc_error_stop_crit (all ten criteria, and PANOC-OCP's six) is TRANSLATED as well (KernelsGen.v, proved equal to the hand criteria and to the documented formulas). Kernels are tied by direct calls (exhaustive truth table, random criteria data) evaluated by the same Gallina code at binary64; whole-loop models of PANOC/ZeroFPR/PANTR/FISTA by whole-run correspondence; whole-solver runs check statuses, counts and eps recomputed from the final iterate.",
+         "calc_error_stop_crit (all ten criteria, and PANOC-OCP's six) is TRANSLATED as well (KernelsGen.v, proved equal to the hand criteria and to the documented formulas). Kernels are tied by direct calls (exhaustive truth table, random criteria data) evaluated by the same Gallina code at binary64; whole-loop models of PANOC/ZeroFPR/PANTR/FISTA and PANOC-OCP (incl. runs where one forward sweep yields a NaN cost) by whole-run correspondence; whole-solver runs check statuses, counts and eps recomputed from the final iterate.",
     design="4/C06",
-    note=TB_REALS + "stdlib FloatAxioms (leb_spec, eqb_spec, ltb_spec, abs_spec, Prim2SF...) for the binary64 theorem; translator translate/gen_stopchain.py (restricted grammar; out-of-grammar is reported); "
+    note=TB_REALS + "stdlib FloatAxioms (leb_spec, eqb_spec, ltb_spec, abs_spec, Prim2SF...) for the binary64 theorem; translator translate/gen_stopchain.py (restricted grammar, every statement of the body must be consumed; out-of-grammar is reported); "
          "criteria: hand model tied by correspondence; clocks are inputs; solver loops abstracted to the chain-evaluate/return/k++ skeleton (validated on runs).",
     technique="Coq proofs over a model regenerated from the C++ by a translator + hand kernels with differential correspondence + run oracles")
 
@@ -57,7 +57,7 @@ CHECKS = {
     "Coq proofs over R of executable kernels + one-step correspondence on solver runs + relation oracle"),
  "C04": C("proof",
     "23 theorems over R about AugLag.v (the default compositions of type-erased-problem.tpp selected by an arbitrary provides-mask, with a call log): every evaluation equals the closed form for EVERY mask, scalar-Sigma path = vector path, m=0 shortcuts, "
-    "only provided members are called, Hessian-product availability, (y_hat-y)/Sigma identity, multiplier signs, 1-D penalty derivative and derivative of psi along any line. Correspondence: all 128 masks x 5 routes (direct, ProblemWithCounters, FunctionalProblem...) at binary64; oracle: closed forms from f, grad f, g, Jg and finite differences.",
+    "only provided members are called, Hessian-product availability, (y_hat-y)/Sigma identity, multiplier signs, 1-D penalty derivative and derivative of psi along any line. Correspondence: all 128 masks x 7 routes (direct, ProblemWithCounters, FunctionalProblem, class without the optional Hessian members, the same classes erased as a SECOND base class ...) at binary64; oracle: closed forms from f, grad f, g, Jg and finite differences.",
     "4/C04", TB_REALS + CORR + "optional members are assumed equal to their closed forms when supplied (provider obligation); the real CasADiProblem is run on plug-ins implementing the CasADi generated-code ABI from closed forms and on the repository's CasADi-generated Rosenbrock file (libcasadi and CasADiControlProblem are not run); C-ABI loader under C20; multivariate chain rule reduced to line derivatives.",
     "Coq proofs for all provider masks + differential correspondence + closed-form / finite-difference oracle"),
  "C05": C("proof",
